@@ -118,7 +118,12 @@ def decodeBody (kind body : String) : Option Body :=
   | "stream", some b => some (.stream b)
   | _, _ => none
 
-def laneHandle : List String → String
+/-- on the wire "no body" and "empty body" are the same observation -/
+def wireBody : Option Bytes → String
+  | some b => encodeHex b
+  | none => "_"
+
+def laneHandleWith (full : Bool) : List String → String
   | [status, err, www, user, pass, method, uri, kind, body, rnd] =>
     match status.toNat?, decodeHex www, decodeHex user, decodeHex pass, decodeHex method,
           decodeHex uri, decodeBody kind body, decodeRnd rnd with
@@ -127,7 +132,8 @@ def laneHandle : List String → String
           { err := err == "1", status, wwwAuth := www } with
        | .untouched => "untouched"
        | .failed e => "err " ++ errName e
-       | .resend h b => "resend " ++ encodeHex h ++ " " ++ optHex b)
+       | .resend h b =>
+         if full then "resend " ++ encodeHex h ++ " " ++ wireBody b else "resend " ++ wireBody b)
     | _, _, _, _, _, _, _, _ => "bad-op"
   | _ => "bad-op"
 
@@ -156,7 +162,8 @@ def lanes : List (String × (List String → String)) := [
   ("c20bearer", laneBearer),
   ("c20parse", laneParse),
   ("c20auth", laneAuth),
-  ("c20handle", laneHandle),
+  ("c20handle", laneHandleWith true),
+  ("c20kind", laneHandleWith false),
   ("c20verify", laneVerify)
 ]
 
